@@ -260,6 +260,6 @@ class LazyList:
 
     @lazylist
     def reversed(self):
-        self.generated += list(itertools.tee(self.raw_object)[-1])
+        len(self)  # exhaust the source into the cache (a tee'd copy re-yields its items)
         for item in self.generated[::-1]:
             yield item
